@@ -96,6 +96,23 @@ Definition loc_eqb (a b : Loc) : bool :=
 (** the u16 fields saturate *)
 Definition sat_loc (l : Loc) : Loc := mkLoc (N.min (line l) U16MAX) (N.min (col l) U16MAX) (byte_pos l) (char_pos l).
 
+(** * The size guard of `lex` (lex.rs:50-88, after the repair e843625)
+    [input.lines()]: pieces between '\n's, one '\r' stripped before a '\n', no final empty
+    piece; the input is rejected when some line index i has i + 1 >= 65535 (FileTooLong) or
+    some line has chars().count() >= 65535 (LineTooLong).  [cur] is the current line, reversed. *)
+Definition strip_cr (cur : list chr) : list chr :=
+  match cur with c :: r => if is_cr c then r else cur | [] => [] end.
+Fixpoint guard_lines (cs : list chr) (cur : list chr) : list (list chr) :=
+  match cs with
+  | [] => match cur with [] => [] | _ => [rev cur] end
+  | c :: r => if is_nl c then rev (strip_cr cur) :: guard_lines r [] else guard_lines r (c :: cur)
+  end.
+Definition GUARD_MAX : N := 65534.
+Definition guard_ok (cs : list chr) : bool :=
+  let ls := guard_lines cs [] in
+  (nlen ls <=? GUARD_MAX) && forallb (fun l => nlen l <=? GUARD_MAX) ls.
+Definition accepted (i : input) : bool := guard_ok (concat i).
+
 (** * The tokeniser as a sequence of actions *)
 Definition span := (Loc * Loc)%type.
 
